@@ -539,3 +539,49 @@ def ob_special_key_names_survive(ki: int, vi: int) -> bool:
 
     got, want = native(scenario)
     return json.dumps(got) == json.dumps(want)
+
+
+# ----------------------------------------------------------------------------------------------- order of an event's dynamic fields
+_PERM12 = [("zeta", "alpha", "mid"), ("alpha", "mid", "zeta"), ("mid", "zeta", "alpha"), ("b", "a", "c")]
+
+
+@obligation(quick=60, thorough=120,
+            what="an event with undeclared (dynamic) fields — StartEvent kwargs are the usual case — comes back from the snapshot with those fields in "
+                 "the order they were given (a resumed step that renders or iterates ev.items() / ev.keys() produces what the uninterrupted one "
+                 "does): through the JsonSerializer and through BrokerState.to_serialized -> JSON -> from_serialized for a queued event",
+            bounds={"field name orders": len(_PERM12), "carrier": "serializer round trip / queued event in the context snapshot"})
+def ob_dynamic_field_order_survives(pi: int, via_ctx: bool) -> bool:
+    """
+    pre: 0 <= pi < len(_PERM12)
+    post: _
+    """
+    pi, via_ctx = conc(pi, 0, len(_PERM12) - 1), concb(via_ctx)
+
+    def scenario():
+        from workflows.events import StartEvent
+
+        names = _PERM12[pi]
+        ev = StartEvent(**{n: i for i, n in enumerate(names)})
+        if not via_ctx:
+            back = SER.deserialize(json.loads(json.dumps(SER.serialize(ev))))
+        else:
+            from workflows import Workflow, step
+            from workflows.context.context_types import SerializedContext
+            from workflows.events import StopEvent
+            from workflows.runtime.types.internal_state import BrokerState, EventAttempt
+
+            class W(Workflow):
+                @step
+                async def s(self, ev: StartEvent) -> StopEvent:
+                    return StopEvent()
+
+            wf = W(timeout=None)
+            st = BrokerState.from_workflow(wf)
+            st.is_running = True
+            st.workers["s"].queue.append(EventAttempt(event=ev))
+            wire = json.loads(json.dumps(st.to_serialized(SER).model_dump(mode="json")))
+            back = BrokerState.from_serialized(SerializedContext.model_validate(wire), wf, SER).workers["s"].queue[0].event
+        return list(back.keys()), [v for _k, v in back.items()], list(names)
+
+    keys, vals, names = native(scenario)
+    return keys == names and vals == [0, 1, 2]
